@@ -619,12 +619,47 @@ class Posted:
         self.chk = graphcap.z3_session(s2)
         self.s2 = s2
 
+    def _flag_ids(self):
+        """ids of the variables the native connectivity nodes mention"""
+        if not hasattr(self, "_fids"):
+            from cspuz.expr import BoolVar, IntVar, Expr
+            acc = set()
+
+            def walk(e):
+                if isinstance(e, (BoolVar, IntVar)):
+                    acc.add(e.id)
+                elif isinstance(e, Expr):
+                    for x in e.operands:
+                        walk(x)
+            for c in self.avc:
+                walk(c)
+            self._fids = acc
+        return self._fids
+
     def sat(self, pat, extra=()):
         asg = {v.id: b for v, b in zip(self.evars, pat)}
-        for c in self.avc:
-            if not avc_value(c, asg):
-                return False
-        return self.chk(list(zip(self.evars, pat)) + list(extra))
+        aux = sorted(self._flag_ids() - set(asg))
+        if not aux:
+            for c in self.avc:
+                if not avc_value(c, asg):
+                    return False
+            return self.chk(list(zip(self.evars, pat)) + list(extra))
+        # the native node speaks about auxiliary variables too (not the case for the code as it is: kept so that a
+        # changed encoding is still decided): enumerate the assignments of those variables the ordinary constraints
+        # admit and evaluate the node's defined meaning on each
+        by_id = {v.id: v for v in self.s2.variables}
+        fixed = list(zip(self.evars, pat)) + list(extra)
+        import itertools
+        if len(aux) > 14:
+            raise ValueError("native connectivity node over %d auxiliary variables" % len(aux))
+        from cspuz.expr import BoolVar
+        doms = [(False, True) if isinstance(by_id[i], BoolVar) else range(by_id[i].lo, by_id[i].hi + 1) for i in aux]
+        for vals in itertools.product(*doms):
+            full = dict(asg)
+            full.update(zip(aux, vals))
+            if all(avc_value(c, full) for c in self.avc) and self.chk(fixed + [(by_id[i], v) for i, v in zip(aux, vals)]):
+                return True
+        return False
 
     def passed_values(self, pat, i):
         return {val for val in (False, True) if self.sat(pat, [(self.es[i], val)])}
